@@ -63,7 +63,7 @@ class SeqAbstraction:
             return z3.Const(f'term!{t.get_id()}', srt)
 
     def formulas(self, fs):
-        out = [self.tr(z3.simplify(f)) for f in fs]
+        out = [self.tr(ssimplify(f)) for f in fs]
         return out + self.side
 
 
@@ -176,12 +176,58 @@ def isolated_check(formulas, timeout_s, on_model=None, mem_mb=None):
         return 'unknown', None
 
 
+def small(t, limit=400):
+    """True if the term has at most `limit` nodes (DAG-unaware count with early exit)"""
+    n = 0
+    stack = [t]
+    while stack:
+        x = stack.pop()
+        n += 1
+        if n > limit:
+            return False
+        stack.extend(x.children())
+    return True
+
+
+def ssimplify(t, limit=400):
+    """z3.simplify for small terms only: on big sequence terms z3's rewriter lifts if-then-else over concatenation, which is exponential"""
+    return z3.simplify(t) if small(t, limit) else t
+
+
+def concat_leaves(t):
+    out = []
+    stack = [t]
+    while stack:
+        x = stack.pop()
+        k = x.decl().kind() if z3.is_app(x) else None
+        if k == z3.Z3_OP_SEQ_CONCAT:
+            stack.extend(reversed(x.children()))
+        elif k == z3.Z3_OP_SEQ_EMPTY:
+            continue
+        else:
+            out.append(x)
+    return out
+
+
+def syntactic_equal(goal):
+    """goal is  a == b  over sequences whose flattened concatenations coincide leaf by leaf (structural identity)"""
+    if not (z3.is_app(goal) and goal.decl().kind() == z3.Z3_OP_EQ):
+        return False
+    a, b = goal.arg(0), goal.arg(1)
+    if not z3.is_seq(a):
+        return a.eq(b)
+    la, lb = concat_leaves(a), concat_leaves(b)
+    return len(la) == len(lb) and all(x.eq(y) for x, y in zip(la, lb))
+
+
 def discharge(ob, timeout_ms=None, portfolio='fallback', on_model=None):
     """returns dict(status = discharged|refuted|unknown|disagree, solver, seconds, model_payload, by={solver: result})"""
     timeout_ms = timeout_ms or QUICK_MS
-    g = z3.simplify(ob.goal)
-    by = {}
     t0 = time.time()
+    if syntactic_equal(ob.goal):
+        return dict(status='discharged', solver='syntactic identity', seconds=0.0, model=None, by={'syntactic': 'unsat'})
+    g = ssimplify(ob.goal)
+    by = {}
     if z3.is_true(g):
         return dict(status='discharged', solver='simplifier', seconds=0.0, model=None, by={'simplifier': 'unsat'})
     fs = list(ob.hyps) + [z3.Not(ob.goal)]
